@@ -1,4 +1,5 @@
-/- Driver.C09 — stream `C09` (stub: replaced when the property's model is built). -/
+/- Driver.C09 — stream `C09`: the shared attribute-store wire format (Driver/AttrsWire.lean, model AHP/Model/Attrs.lean). -/
+import Driver.AttrsWire
 namespace Driver.C09
-def run (_payload : String) : String := "unimplemented"
+def run (payload : String) : String := Driver.AttrsWire.run payload
 end Driver.C09
